@@ -10,12 +10,20 @@
 (* link (the bases the linker chose are an observation), lmemory,          *)
 (* lentries, lsymbols, lpentry.                                            *)
 (*                                                                         *)
+(* Sessions with src = "code" (generated text of hand-picked instruction     *)
+(* words with a known call graph) and src = "file" (corpus/c19) also carry *)
+(* program / rprogram: the results of Loader::program_verbose and          *)
+(* Loader::program_recursive_verbose, judged by Loader!ProgramOK /         *)
+(* ClosureOK.  Sessions with src = "json" feed the JSON loader from a      *)
+(* program specification; it is judged by the same predicates on the       *)
+(* description JDesc the specification denotes.                            *)
+(*                                                                         *)
 (* The answers are independent queries on the same loaded image, so a      *)
 (* rejected answer does not skip the rest of the session: every component  *)
 (* is judged on its own (a defect in program_entry() must not hide the     *)
 (* memory map of the same load).                                           *)
 (***************************************************************************)
-EXTENDS Elf, TraceLib
+EXTENDS Loader, TraceLib
 
 VARIABLES l, S, base, users, bases
 vars == <<l, S, base, users, bases>>
@@ -123,6 +131,75 @@ PentryExp(d, b, e) ==
 
 ArchCheck(d, e) == Has(e, "name") /\ e.name = ArchName(d) /\ e.endian = Endian(d)
 
+(* ------------------------------ lifted programs ------------------------ *)
+RangeOf(q) == { q[i] : i \in 1..Len(q) }
+ObsF(e) == { e.res.ok.funcs[i].addr : i \in 1..Len(e.res.ok.funcs) }
+ObsE(e) == { e.res.ok.errors[i].addr : i \in 1..Len(e.res.ok.errors) }
+ObsCalls(e) == [a \in ObsF(e) |->
+                  UNION { RangeOf(e.res.ok.funcs[i].calls) : i \in { j \in 1..Len(e.res.ok.funcs) : e.res.ok.funcs[j].addr = a } }]
+ExecEntries(d, b, us) == { a \in EntryLower(d, b, us) : ExecAt(d, b, a) }
+
+\* generated code: the call graph the text was assembled from.  Position-independent calls move
+\* with the base; the region-absolute MIPS jal only denotes the intended target at base 0.
+Anchors(d) == IF Has(d, "code") THEN RangeOf(d.code) ELSE {}
+AnchorWant(c, b) == { AddA(t, b) : t \in RangeOf(c.calls) }
+AnchorApplies(c, b) == c.kind = "rel" \/ IsZero(b)
+BadCalls(d, b, e) ==
+  { c \in Anchors(d) : /\ AnchorApplies(c, b) /\ AddA(c.addr, b) \in ObsF(e)
+                        /\ ObsCalls(e)[AddA(c.addr, b)] # AnchorWant(c, b) }
+
+ProgParts(d, b, us, e, rec) ==
+  LET F == ObsF(e)  E == ObsE(e)
+      lower == EntryLower(d, b, us)  upper == EntryUpper(d, b, us)
+      exec == ExecEntries(d, b, us)
+  IN [dup     |-> Card(F) = Len(e.res.ok.funcs),
+      entries |-> IF rec THEN F \cap E = {} /\ exec \subseteq (F \cup E)
+                  ELSE ProgramOK(lower, upper, exec, F, E),
+      closure |-> rec => ClosureOK(lower, upper, exec, F, E, ObsCalls(e)),
+      \* (a function symbol in memory that is not executable is not lifted as an entry; if a call
+      \* leads there the function found has no name to inherit)
+      names   |-> \A i \in 1..Len(e.res.ok.funcs) :
+                    ExecAt(d, b, e.res.ok.funcs[i].addr) =>
+                      FuncNameOK(d, b, e.res.ok.funcs[i].addr, e.res.ok.funcs[i].name),
+      calls   |-> BadCalls(d, b, e) = {}]
+ProgramEvOK(d, b, us, e, rec) ==
+  /\ Clean(e.res)
+  /\ LET p == ProgParts(d, b, us, e, rec) IN p.dup /\ p.entries /\ p.closure /\ p.names /\ p.calls
+ProgramExp(d, b, us, e, rec) ==
+  IF ~Clean(e.res) THEN [part |-> "outcome"]
+  ELSE LET p == ProgParts(d, b, us, e, rec)
+           F == ObsF(e)  E == ObsE(e) IN
+       [part |-> IF ~p.dup THEN "dup" ELSE IF ~p.entries THEN "entries" ELSE IF ~p.closure THEN "closure"
+                 ELSE IF ~p.names THEN "names" ELSE "calls",
+        missing_entries |-> ExecEntries(d, b, us) \ (F \cup E),
+        not_entries |-> IF rec THEN {} ELSE (F \cup E) \ EntryUpper(d, b, us),
+        unclosed |-> IF rec THEN UNION { ObsCalls(e)[f] \ (F \cup E) : f \in F } ELSE {},
+        unjustified |-> IF rec THEN (F \cup E) \ ReachFrom(EntryUpper(d, b, us), F, ObsCalls(e)) ELSE {},
+        badcalls |-> { [fn |-> AddA(c.addr, b), want |-> AnchorWant(c, b), got |-> ObsCalls(e)[AddA(c.addr, b)]] :
+                       c \in BadCalls(d, b, e) },
+        all_got_empty |-> \A c \in BadCalls(d, b, e) : ObsCalls(e)[AddA(c.addr, b)] = {},
+        all_got_superset |-> \A c \in BadCalls(d, b, e) : AnchorWant(c, b) \subseteq ObsCalls(e)[AddA(c.addr, b)]]
+
+(* ------------------------------ the JSON loader ------------------------ *)
+\* the image description a JSON program specification denotes: every segment is a fully
+\* backed rwx PT_LOAD, every listed function a defined function symbol
+JDesc(j) ==
+  [cls |-> 32, data |-> "LE", machine |-> IF j.arch = "x86" THEN 3 ELSE 0, etype |-> 2, entry |-> j.entry,
+   segs |-> [k \in 1..Len(j.segments) |->
+               [type |-> PT_LOAD, off |-> 0, vaddr |-> j.segments[k].address, filesz |-> Len(j.segments[k].bytes),
+                memsz |-> Len(j.segments[k].bytes), flags |-> 7, bytes |-> j.segments[k].bytes]],
+   symtab |-> [k \in 1..Len(j.functions) |->
+                 [name |-> j.functions[k].name, value |-> j.functions[k].address, type |-> STT_FUNC,
+                  bind |-> STB_GLOBAL, shndx |-> 1]],
+   dynsym |-> <<>>, pltrel |-> <<>>]
+\* function entries of a specification: exactly the listed functions (with their names); the
+\* program entry may be reported in addition
+JListed(j) == { <<j.functions[k].address, j.functions[k].name>> : k \in 1..Len(j.functions) }
+JEntriesOK(j, obs) ==
+  /\ JListed(j) \subseteq obs
+  /\ \A x \in obs \ JListed(j) : x[1] = j.entry
+IsJson == S.src = "json"
+
 (* ------------------------------ linked sets ---------------------------- *)
 Objs == [k \in 1..Len(S.objs) |-> [name |-> S.objs[k].name, base |-> bases[k], d |-> S.objs[k].desc]]
 Relocs == S.relocs
@@ -211,8 +288,12 @@ EventOK(e) ==
   CASE e.ev = "new"      -> Clean(e.res)
     [] e.ev = "arch"     -> ArchCheck(S.desc, e)
     [] e.ev = "memory"   -> MemoryOK(S.desc, base, e)
-    [] e.ev = "entries"  -> EntriesCheck(S.desc, base, users, e)
-    [] e.ev = "symbols"  -> SymbolsCheck(S.desc, base, e)
+    [] e.ev = "entries"  -> IF IsJson THEN Clean(e.res) /\ JEntriesOK(S.jdesc, ObsEntries(e))
+                            ELSE EntriesCheck(S.desc, base, users, e)
+    [] e.ev = "symbols"  -> IF IsJson THEN Clean(e.res) /\ ObsSyms(e) \subseteq SymUpper(S.desc, base)
+                            ELSE SymbolsCheck(S.desc, base, e)
+    [] e.ev = "program"  -> ProgramEvOK(S.desc, base, users, e, FALSE)
+    [] e.ev = "rprogram" -> ProgramEvOK(S.desc, base, users, e, TRUE)
     [] e.ev = "pentry"   -> PentryCheck(S.desc, base, e)
     [] e.ev = "link"     -> LinkCheck(e)
     [] e.ev = "lmemory"  -> LMemoryOK(e)
@@ -225,8 +306,10 @@ Expected(e) ==
   CASE e.ev = "new"      -> [ok |-> 1]
     [] e.ev = "arch"     -> [name |-> ArchName(S.desc), endian |-> Endian(S.desc)]
     [] e.ev = "memory"   -> MemoryExp(S.desc, base, e)
-    [] e.ev = "entries"  -> EntriesExp(S.desc, base, users, e)
+    [] e.ev = "entries"  -> IF IsJson THEN [listed |-> JListed(S.jdesc)] ELSE EntriesExp(S.desc, base, users, e)
     [] e.ev = "symbols"  -> SymbolsExp(S.desc, base, e)
+    [] e.ev = "program"  -> ProgramExp(S.desc, base, users, e, FALSE)
+    [] e.ev = "rprogram" -> ProgramExp(S.desc, base, users, e, TRUE)
     [] e.ev = "pentry"   -> PentryExp(S.desc, base, e)
     [] e.ev = "link"     -> [ok |-> "every object loaded"]
     [] e.ev = "lmemory"  -> LMemoryExp(e)
@@ -238,6 +321,7 @@ Expected(e) ==
 \* the generator only produces well-formed descriptions; anything else is a harness error and
 \* is reported as such (why = "ill-formed"), never judged
 BeginOK(e) == IF e.src = "link" THEN \A k \in 1..Len(e.objs) : WellFormed(e.objs[k].desc)
+              ELSE IF e.src = "json" THEN WellFormed(JDesc(e.jdesc))
               ELSE WellFormed(e.desc)
 
 Init == l = 1 /\ S = <<>> /\ base = AZero /\ users = <<>> /\ bases = <<>>
@@ -246,7 +330,8 @@ Next ==
   /\ l' = l + 1
   /\ LET e == Rec[l] IN
      IF e.ev = "begin" THEN
-       /\ S' = e /\ base' = AZero /\ users' = <<>> /\ bases' = <<>>
+       /\ S' = IF e.src = "json" THEN [src |-> "json", jdesc |-> e.jdesc, desc |-> JDesc(e.jdesc)] ELSE e
+       /\ base' = AZero /\ users' = <<>> /\ bases' = <<>>
        /\ BeginOK(e) \/ Reject(l, "ill-formed", [harness |-> "description is not well-formed"])
      ELSE IF e.ev = "load" THEN
        /\ base' = e.base /\ users' = e.users /\ UNCHANGED <<S, bases>>
